@@ -208,5 +208,7 @@ Cv(U, dr, a, v, stack) ==
   IN
   IF ~unevPOK THEN F ELSE CR(TRUE, anns9)
 
-ValidCode(U, dr, v) == Cv(U, dr, Addr(1, <<>>), v, <<>>).ok
+\* Resolved.Validate: refuse unsupported $schema values, else validate with an empty stack
+CvTop(U, v) == IF DrOf(U) = "refused" THEN CR(FALSE, NoAnns) ELSE Cv(U, DrOf(U), Addr(1, <<>>), v, <<>>)
+ValidCode(U, v) == CvTop(U, v).ok
 ====
